@@ -4,6 +4,7 @@ import (
 	"context"
 	"errors"
 	"sync"
+	"time"
 )
 
 // native replay only: the window between Merge's internal cancellation and the recording of the
@@ -32,6 +33,43 @@ func (s *vFailWhenParked) Next(ctx context.Context) (int, error) {
 	return 0, s.err
 }
 func (s *vFailWhenParked) Close() {}
+
+var vHammeredMergeEnd int
+
+// vHammerMergeEnd (native replay only): many merges whose inputs all end in the same instant.
+// A defect in "the last input to finish closes the pipe" shows as a panic in one of the library's
+// goroutines (which ends the process) or as a merge that never ends.
+func vHammerMergeEnd() bool {
+	if vHammeredMergeEnd >= 2 {
+		return false
+	}
+	vHammeredMergeEnd++
+	for trial := 0; trial < 60000; trial++ {
+		gate := make(chan struct{})
+		in := make([]Stream[int], 4)
+		for i := range in {
+			in[i] = &vGatedEmpty{gate: gate}
+		}
+		m := Merge[int](in...)
+		close(gate)
+		ctx, cancel := context.WithTimeout(context.Background(), 2*time.Second)
+		_, err := m.Next(ctx)
+		cancel()
+		m.Close()
+		if err != End {
+			return true
+		}
+	}
+	return false
+}
+
+type vGatedEmpty struct{ gate chan struct{} }
+
+func (s *vGatedEmpty) Next(ctx context.Context) (int, error) {
+	<-s.gate
+	return 0, End
+}
+func (s *vGatedEmpty) Close() {}
 
 var vHammeredMerge int // at most a few times per replay process
 
@@ -144,6 +182,9 @@ func VerifStreamMerge(k int, n int, errPos int, closeAfter int, errKind int) {
 		vAssert(failing && err == E, "C12:smerge/reports-the-first-input-error")
 		gotErr = true
 		break
+	}
+	if vNative() && !failing && k >= 2 && closeAfter < 0 {
+		vAssert(!vHammerMergeEnd(), "C12:smerge/finishes-when-inputs-do")
 	}
 	if vNative() && failing && k >= 2 && closeAfter < 0 {
 		vAssert(!vHammerMergeError(E), "C12:smerge/reports-the-first-input-error")
